@@ -17,7 +17,7 @@
 use std::{cmp, thread};
 use std::fs::{self, canonicalize, create_dir_all, read_link, File, Metadata};
 use std::path::{Path, PathBuf};
-use std::sync::Arc;
+use std::sync::{Arc, Mutex};
 
 use crossbeam_channel as cbc;
 use libfs::{
@@ -27,10 +27,13 @@ use log::{debug, error, info, warn};
 use walkdir::WalkDir;
 
 use crate::backup::{get_backup_path, needs_backup};
-use crate::config::{Config, Reflink};
+use crate::config::{Backup, Config, Reflink};
 use crate::errors::{Result, XcpError};
 use crate::feedback::{StatusUpdate, StatusUpdater};
 use crate::paths::{parse_ignore, ignore_filter};
+
+/// Serialises the backup-and-create step of concurrent workers.
+static BACKUP_STEP: Mutex<()> = Mutex::new(());
 
 #[derive(Debug)]
 pub struct CopyHandle {
@@ -60,6 +63,14 @@ impl CopyHandle {
             return Err(XcpError::InvalidDestination("Not writing through a dangling symlink.").into());
         }
 
+        // Choosing a backup number (a directory scan), moving the old
+        // file away and creating the new one are one step: another
+        // worker doing the same for a neighbouring name (say `f.~1~`
+        // while we back up `f`) must not see, or fill, the gap.
+        let _backup_step = match config.backup {
+            Backup::None => None,
+            _ => Some(BACKUP_STEP.lock().unwrap_or_else(|e| e.into_inner())),
+        };
         if needs_backup(to, config)? {
             let backup = get_backup_path(to)?;
             info!("Backup: Rename {:?} to {:?}", to, backup);
@@ -67,6 +78,7 @@ impl CopyHandle {
         }
 
         let outfd = File::create(to)?;
+        drop(_backup_step);
         allocate_file(&outfd, metadata.len())?;
 
         let handle = CopyHandle {
